@@ -364,6 +364,21 @@ pub fn minimise_with(plan: &Plan, o: &Outcome, budget: u32, pred: &mut dyn FnMut
                 break;
             }
         }
+        // 2b. a matrix run whose failure happens after the hand-over of `rows`/`cols`: try the
+        //     plain vector of the same dimension with the matrix prefix cut off
+        if best.kind >= N_VEC_KINDS && tried < budget {
+            if let Some(pos) = best.ops.iter().position(|o| o.k == OpK::MTakeLines) {
+                let mut c = best.clone();
+                c.kind = kind_dim(best.kind) - 2; // Vec2 / Vec3 / Vec4
+                c.ops.drain(..=pos);
+                c.ops.insert(0, Op::new(OpK::ArrToV));
+                if let Some(oc) = attempt(&c, &mut tried) {
+                    best = c;
+                    best_o = oc;
+                    progress = true;
+                }
+            }
+        }
         // 3. simplify each operation: drop the fault, shrink arguments
         for i in 0..best.ops.len() {
             if tried >= budget {
